@@ -24,6 +24,7 @@ _XSD = """<xs:schema xmlns:xs="http://www.w3.org/2001/XMLSchema">
    <xs:element name="i" minOccurs="0" maxOccurs="unbounded"><xs:complexType><xs:sequence>
        <xs:element name="c" type="xs:int" minOccurs="0" maxOccurs="2"/></xs:sequence>
      <xs:attribute name="k" type="xs:int"/><xs:attribute name="ref" type="xs:int"/><xs:attribute name="q" type="xs:QName"/></xs:complexType></xs:element>
+   <xs:any namespace="##other" processContents="lax" minOccurs="0" maxOccurs="unbounded"/>
  </xs:sequence></xs:complexType>
  <xs:key name="K"><xs:selector xpath="i"/><xs:field xpath="@k"/></xs:key>
  <xs:keyref name="R" refer="K"><xs:selector xpath="i"/><xs:field xpath="@ref"/></xs:keyref>
@@ -34,6 +35,10 @@ KS = [None, "1", "2"]
 REFS = [None, "1", "3"]
 CH = [[], ["1"], ["1", "x"], ["x", "2"]]
 NSD = [False, True]
+XSI = 'xmlns:xsi="http://www.w3.org/2001/XMLSchema-instance" xmlns:xs="http://www.w3.org/2001/XMLSchema"'
+# an undeclared child in another namespace, admitted by the lax wildcard that closes the root's model
+WILDKIDS = ['', '<x xmlns="urn:o">free</x>', '<x xmlns="urn:o" %s xsi:type="xs:int">1</x>' % XSI, '<x xmlns="urn:o" %s xsi:type="xs:int">bad</x>' % XSI]
+TAILS = ['', 'stray text', ' \n ']          # character data after the first item (not allowed in element-only content unless blank)
 PADS = [0, 17000, 70000]          # characters of comment between the first and the second item (pushes the rest past the parser's read-ahead block)
 
 
@@ -97,6 +102,22 @@ def region_lazy_decode_chunk_xmlns(**kw):
     return any(kw.get("q%d" % j) == 1 for j in range(CFG["n"]))
 
 
+def region_lazy_root_errors_last(**kw):
+    """known finding C06-lazy-root-errors-last: the root element itself is invalid (undeclared attribute) and some error is
+    reported below it: the lazy run validates the root last, so its own errors come after those of the streamed children"""
+    kw = _with_fixed(kw)
+    if not (kw.get("b") or kw.get("t") == 1):
+        return False
+    child_error = any('x' in ch or k is None for k, r, ch in _items(kw))
+    return child_error or kw.get("w") == 3
+
+
+def region_lazy_path_default_ns_spelling(**kw):
+    """known finding C06-lazy-path-default-ns-spelling: an error is located at a streamed child that declares a default
+    namespace itself (the wildcard-matched child with invalid typed content)"""
+    return _with_fixed(kw).get("w") == 3
+
+
 def region_lazy_path_position_readahead(**kw):
     """known finding C06-lazy-path-position-readahead: an error is located at the first item while the second item lies
     beyond the parser's read-ahead (the positional predicate [1] is omitted because the sibling is not in the tree yet)"""
@@ -106,7 +127,7 @@ def region_lazy_path_position_readahead(**kw):
 
 def pre_doc(fn, **kw):
     for k, v in kw.items():
-        lim = {"k": len(KS), "r": len(REFS), "c": len(CH), "x": 3, "z": 2, "q": 3, "p": len(PADS)}[k[0]]
+        lim = {"k": len(KS), "r": len(REFS), "c": len(CH), "x": 3, "z": 2, "q": 3, "p": len(PADS), "w": len(WILDKIDS), "t": len(TAILS), "b": 2}[k[0]]
         lim = min(lim, CFG.get("lims", {}).get(k, lim))
         if not (0 <= v < lim):
             return False
@@ -141,9 +162,13 @@ def _doc(kw):
         if ns == 2 and kids:
             kids[-1] = kids[-1].replace('<c>', '<c xmlns:w="urn:w%d">' % j, 1)
         items.append('<i%s>%s</i>' % (attrs, ''.join(kids)))
+        if j == 0 and "t" in kw:
+            items.append(TAILS[pick(kw["t"], len(TAILS))])
         if j == 0 and "pad" in kw:
             items.append('<!--%s-->' % ('.' * PADS[pick(kw["pad"], len(PADS))]))
-    return '<r xmlns:p="urn:p">%s</r>' % ''.join(items)
+    if "w" in kw:
+        items.append(WILDKIDS[pick(kw["w"], len(WILDKIDS))])
+    return '<r xmlns:p="urn:p"%s>%s</r>' % (' bad="1"' if kw.get("b") else '', ''.join(items))
 
 
 def _materialise(data, errors):
@@ -187,6 +212,15 @@ def h_lazy(**kw) -> bool:
     eager_errors = [(e.reason, e.path) for e in SCHEMA.iter_errors(XMLResource(doc))]
     lazy_errors = [(e.reason, e.path) for e in SCHEMA.iter_errors(XMLResource(doc, lazy=lazy, thin_lazy=CFG["thin"]))]
     return lazy_errors == eager_errors
+
+
+def h_lazy_reasons(**kw) -> bool:
+    """iter_errors(): the same verdict and the same multiset of error reasons (no claim on order and paths: holds on the
+    whole domain, including the regions of the order/path findings)"""
+    doc = _doc(kw) if CFG["n"] else '<r/>'
+    eager = sorted(e.reason or '' for e in SCHEMA.iter_errors(XMLResource(doc)))
+    lazy = sorted(e.reason or '' for e in SCHEMA.iter_errors(XMLResource(doc, lazy=CFG["lazy"], thin_lazy=CFG["thin"])))
+    return lazy == eager
 
 
 def h_lazy_decode(**kw) -> bool:
@@ -269,7 +303,7 @@ def obligations(tier, seed):
                     continue        # the first item lacks its key: entirely inside the recorded finding's region
                 out.append({"name": "%s/lazy1/n%d/%s%s" % (label, n, "thin" if thin else "full", "" if k0 is None else "/k0=%d" % k0), "fn": fn, "pre": "pre_doc",
                             "args": [a for a in args if k0 is None or a[0] != "k0"],
-                            "config": {"n": n, "lazy": 1, "thin": thin, "lims": {"r1": 2, "c1": 3, "c0": 3} if (quick and n == 2) else {},
+                            "config": {"n": n, "lazy": 1, "thin": thin, "lims": {"r1": 2, "c1": 3, "c0": 3} if (quick and n == 2) else ({"r0": 2, "r1": 2, "r2": 2, "c0": 2, "c1": 3, "c2": 2} if n == 3 else {}),
                                        "fixed": {} if k0 is None else {"k0": k0}},
                             "timeout": 900 if quick else 3000, "twin_timeout": 40,
                             "bound": "%d items: key from %r, keyref from %r, children %r" % (n, KS, REFS, CH)})
@@ -281,6 +315,15 @@ def obligations(tier, seed):
                 out.append({"name": "%s-qname/lazy1/n%d" % (label, n), "fn": fn, "pre": "pre_doc", "args": qargs,
                             "config": {"n": n, "lazy": 1, "thin": True, "lims": {"c0": 2, "c1": 2}}, "timeout": 600 if quick else 2000, "twin_timeout": 40,
                             "bound": "%d items, each with a QName attribute whose prefix is declared on the item itself / not declared / absent" % n})
+        if n == 1:
+            out.append({"name": "errors-extra/lazy1/n1", "fn": "h_lazy", "pre": "pre_doc",
+                        "args": [["w", "int"], ["t", "int"], ["b", "int"], ["c0", "int"]],
+                        "config": {"n": 1, "lazy": 1, "thin": True, "lims": {"c0": 3}}, "timeout": 600 if quick else 2000, "twin_timeout": 40,
+                        "bound": "1 item + an undeclared wildcard-matched child from %d variants (with/without xsi:type) x character data after the item %r x an invalid root attribute" % (len(WILDKIDS), TAILS)})
+            out.append({"name": "reasons-extra/lazy1/n1", "fn": "h_lazy_reasons", "pre": "pre_doc",
+                        "args": [["w", "int"], ["t", "int"], ["b", "int"], ["c0", "int"]],
+                        "config": {"n": 1, "lazy": 1, "thin": True, "lims": {"c0": 3}}, "timeout": 600 if quick else 2000, "twin_timeout": 40,
+                        "bound": "the same documents: verdict and multiset of reasons (whole domain, no exclusions)"})
         if n == 2:
             out.append({"name": "errors-chunked/lazy1/n2", "fn": "h_lazy", "pre": "pre_doc",
                         "args": [["pad", "int"], ["k0", "int"], ["k1", "int"], ["r1", "int"]],
